@@ -1,7 +1,7 @@
 (* C17 — broken forms are rejected with a located diagnosis; nothing ever crashes.
    Only statements closed by exact (or a direct conjunction of lemmas), with Print Assumptions beneath each. *)
 Require Import PX.Base.Str PX.Base.PyStr PX.Model.Warnings PX.Model.Bind PX.Model.Headers PX.Gen.Headers PX.Spec.Nest PX.Model.Rows PX.Proofs.Rows
-  PX.Model.Tree PX.Proofs.Tree PX.Gen.Choices PX.Model.Choices PX.Proofs.Choices PX.Model.Params PX.Proofs.Params PX.Model.Names PX.Model.Scanner PX.Model.RefText PX.Proofs.RefText.
+  PX.Model.Tree PX.Proofs.Tree PX.Gen.Choices PX.Model.Choices PX.Proofs.Choices PX.Model.Params PX.Proofs.Params PX.Model.Names PX.Model.Scanner PX.Model.RefText PX.Proofs.RefText PX.Proofs.ScanFacts.
 
 (* unbalanced begin/end: rejected at the right row (2 + rows above, blank rows counted) wherever the error sits, or by name *)
 Theorem C17_unbalanced_located : forall pre ts, Nest pre ts ->
@@ -53,6 +53,12 @@ Theorem C17_last_saved_reference_is_one_token : forall name, ncname_plain name -
   /\ ref_syntax_ok ([36;123]%N ++ LAST_SAVED ++ name ++ [125]%N) = true.
 Proof. exact (fun name H => conj (last_saved_reference_is_one_token name H) (last_saved_reference_accepted name H)). Qed.
 Print Assumptions C17_last_saved_reference_is_one_token.
+(* the negative direction, for EVERY NCName: an opened reference that is never closed is scanned as PYXFORM_REF_START followed by
+   one NAME token and is refused *)
+Theorem C17_unclosed_reference_refused_for_every_name : forall name, ncname_plain name ->
+  scan ([36;123]%N ++ name) = ([(n_ref_start, [36;123]%N); (n_name, name)], []) /\ ref_syntax_ok ([36;123]%N ++ name) = false.
+Proof. exact (fun name H => conj (unclosed_reference_tokens name H) (unclosed_reference_refused name H)). Qed.
+Print Assumptions C17_unclosed_reference_refused_for_every_name.
 Theorem C17_unclosed_reference_refused :
   ref_syntax_ok [36;123;113]%N = false /\ ref_syntax_ok [36;123;113;32;125]%N = false /\ ref_syntax_ok [36;123;36;123;113;125;125]%N = false.
 Proof. exact unclosed_refused. Qed.
